@@ -45,6 +45,32 @@ func randName(r *rand.Rand) string {
 	return strings.Join(labels, ".")
 }
 
+// exactName returns a name of exactly n characters made of labels of up to 63.
+func exactName(r *rand.Rand, n int) string {
+	const alpha = "abcdefghijklmnopqrstuvwxyz0123456789"
+	var labels []string
+	for left := n; left > 0; {
+		k := 1 + r.Intn(63)
+		if k > left {
+			k = left
+		}
+		if left-k == 1 {
+			if k > 1 {
+				k--
+			} else {
+				k = 2
+			}
+		}
+		b := make([]byte, k)
+		for i := range b {
+			b[i] = alpha[r.Intn(len(alpha))]
+		}
+		labels = append(labels, string(b))
+		left -= k + 1
+	}
+	return strings.Join(labels, ".")
+}
+
 type dnsTruth struct {
 	q      string
 	a      map[netip.Addr]string // addr -> owner (first occurrence)
@@ -101,6 +127,10 @@ func (t *c17) dnsCase(r *rand.Rand) {
 	// the handler merges answers per question name: keep question names unique within a handler's life
 	truth := dnsTruth{q: fmt.Sprintf("q%d.", t.idx) + randName(r), a: map[netip.Addr]string{}, aaaa: map[netip.Addr]string{}, cname: map[string]string{}, ptr: map[string]netip.Addr{}}
 	names := []string{truth.q, randName(r), randName(r)}
+	if r.Intn(6) == 0 {
+		names[1+r.Intn(2)] = exactName(r, 253-r.Intn(3)) // at and just below the RFC 1035 limit
+		c.Obs("dns_names_near_limit", 1)
+	}
 	m := refdec.NewDNSMsg(uint16(r.Intn(65536)), 0x8180)
 	m.Q = []refdec.DNSQ{{Name: truth.q, Type: 1, Class: 1}}
 	nrec := 1 + r.Intn(6)
